@@ -709,7 +709,13 @@ impl ExecutionState {
     /// its execution.
     pub fn maybe_yield() -> bool {
         Self::with(|state| {
-            if std::thread::panicking() && !state.in_cleanup {
+            // Tasks that are being torn down at the end of an execution must not be rescheduled: there is
+            // nothing left to switch to, so drop handlers that reach a scheduling point just keep running.
+            if state.in_cleanup {
+                return false;
+            }
+
+            if std::thread::panicking() {
                 return true;
             }
 
